@@ -33,6 +33,11 @@ def generate(rng, tier, rep):
         for T in c['tests']:
             if rng.random() < 0.3 and not T.get('deco_skip'):
                 T['writes'] = {'body': [[rng.choice(['stdout', 'stderr']), rng.choice(NOISE)]]}
+        if rng.random() < 0.12:
+            # test modules that cannot be loaded (exception or SystemExit at import, broken test_suite, no tests): the
+            # number of import failures the model is told about comes from the world, not from what the runner counted
+            c['broken'] = [rng.choice(['raise', 'exit0', 'exit', 'syntax', 'bad_suite', 'suite_exit', 'empty'])
+                           for _ in range(rng.choice([1, 1, 2]))]
         cases.append(c)
     # injected subprocess faults: the verdict must be 'failed' whatever else happened
     m = {'quick': 40, 'thorough': 400, 'search': 0}[tier]
@@ -43,7 +48,7 @@ def generate(rng, tier, rep):
         li = rng.randrange(len(c['layers']))
         c['tests'].append({'layer': li})
         how = rng.choice(['exit0', 'exit3', 'kill', 'segv'])
-        where = ['import', 'setUp', 'body', 'tearDown', 'report', 'spawn', 'kbd_body', 'kbd_setUp', 'tsetup_raise'][i % 9]
+        where = ['import', 'setUp', 'body', 'tearDown', 'report', 'spawn', 'kbd_body', 'kbd_setUp', 'tsetup_raise', 'import_raise'][i % 10]
         if where == 'import':
             c['die_import'] = how
         elif where == 'setUp':
@@ -61,6 +66,9 @@ def generate(rng, tier, rep):
             how = 'exc'
         elif where == 'kbd_setUp':
             c['layers'][li].setdefault('hooks', {})['setUp'] = ['kbd']
+            how = 'exc'
+        elif where == 'import_raise':
+            c['import_raise_in_child'] = True
             how = 'exc'
         elif where == 'tsetup_raise':
             c['layers'][li].setdefault('hooks', {})['testSetUp'] = ['raise']
